@@ -170,6 +170,36 @@ def judge(pkg, exp, u, n, gen):
     return ("ok", None)
 
 
+def _ext_twins(item):
+    """Two different external cells that share name and domain (`res` of two libraries) and are given equal parameters, used
+    as units one after the other in one process: each generated module is made of *its* unit and has its unit's ports."""
+    import hdl21 as h
+    from hdl21.generators import Series, Wrapper
+
+    gen, n, order = item
+    try:
+        h.generator.cache.reset()
+        libs = {
+            "A": h.ExternalModule(name="res", port_list=[h.Port(name="p"), h.Port(name="n")], paramtype=dict, domain="lib"),
+            "B": h.ExternalModule(name="res", port_list=[h.Port(name="p"), h.Port(name="n"), h.Port(name="sub")], paramtype=dict, domain="lib"),
+        }
+        made = {}
+        for k in order:
+            unit = libs[k](dict(r=1000))
+            made[k] = Wrapper(unit) if gen == "wrapper" else Series(unit=unit, conns=("p", "n"), nser=n)
+        for k, m in made.items():
+            want = {"A": {"p", "n"}, "B": {"p", "n", "sub"}}[k]
+            h.elaborate(m)
+            if set(m.ports) != want:
+                return ("bad", f"built from the `res` of library {k} (the {'first' if order[0] == k else 'second'} call): ports {sorted(m.ports)}, the unit has {sorted(want)}")
+            others = [i.name for i in m.instances.values() if getattr(i.of, "module", None) is not libs[k]]
+            if others or len(m.instances) != (1 if gen == "wrapper" else n):
+                return ("bad", f"built from the `res` of library {k}: instances {others} are of another cell ({len(m.instances)} instances)")
+    except Exception as e:
+        return ("raised", short_exc(e))
+    return ("ok", None)
+
+
 def _port_attrs(item):
     """The generated module exposes the unit's ports as they are: width, direction, port visibility, usage (power / ground /
     clock / signal) and description of every port."""
@@ -281,6 +311,13 @@ def run(ctx):
         ctx.outcome(status + ":seq:" + it[0] + ":" + str(detail)[:20])
         if status != "ok":
             ctx.violation(dict(gen=it[0], unit=it[2], nser=("1" if it[3] == 1 else "n>1"), what="after " + it[1] + ": " + str(detail).split(":")[0][:40], wide=False), dict(seq=list(it)), detail)
+    for it in [(g, n, o) for g, ns in (("wrapper", (1,)), ("series", (1, 2, 3))) for n in ns for o in ("AB", "BA")]:
+        status, detail = _ext_twins(it)
+        ctx.count(states=1, transitions=4, traces_validated_against_impl=1)
+        ctx.fam("same_named_external_units:" + it[0], **{status: 1})
+        ctx.outcome(status + ":twins:" + it[0] + ":" + str(detail)[:20])
+        if status != "ok":
+            ctx.violation(dict(gen=it[0], unit="ext twins", nser=("1" if it[1] == 1 else "n>1"), what="same-named external units: " + str(detail).split(":")[0][:40], wide=False), dict(twins=list(it)), detail)
     for it in [("wrapper", 1), ("series", 1), ("series", 2), ("series", 3)]:
         status, detail = _port_attrs(it)
         ctx.count(states=1, transitions=2, traces_validated_against_impl=1)
@@ -294,7 +331,9 @@ def run(ctx):
 
 
 def replay(body):
-    if "attrs" in body["case"]:
+    if "twins" in body["case"]:
+        r = _ext_twins(tuple(body["case"]["twins"]))
+    elif "attrs" in body["case"]:
         r = _port_attrs(tuple(body["case"]["attrs"]))
     elif "seq" in body["case"]:
         r = _seq(tuple(body["case"]["seq"]))
